@@ -37,7 +37,7 @@ register(
 register(
     ID='C15', LEVEL='exploration',
     ARMS=[(c15, 1.0)],
-    TIERS={'quick': {'runs': 12000, 'wall_cap': 100, 'minimise_budget': 30},
+    TIERS={'quick': {'runs': 24000, 'wall_cap': 100, 'minimise_budget': 30},
            'thorough': {'runs': 300000, 'wall_cap': 900, 'minimise_budget': 120}},
     RULE='each run = one seeded history (3-40 operations) of map:*/array:* functions, constructors and lookups '
          'over a pool of at most 10 aliasing map/array values (results re-enter the pool as the same objects); '
@@ -52,7 +52,7 @@ register(
 register(
     ID='C16', LEVEL='exploration',
     ARMS=[(c16, 0.8), (c16s, 0.2)],
-    TIERS={'quick': {'runs': 16000, 'wall_cap': 100, 'minimise_budget': 30, 'known_minimise_budget': 8},
+    TIERS={'quick': {'runs': 40000, 'wall_cap': 100, 'minimise_budget': 30, 'known_minimise_budget': 8},
            'thorough': {'runs': 500000, 'wall_cap': 900, 'minimise_budget': 120}},
     RULE='each run = one seeded history of operations on function items: typed random programs over the mini-language '
          '(inline functions capturing let/for variables, function expressions inside loops, function items in '
@@ -69,7 +69,7 @@ register(
 register(
     ID='C05', LEVEL='exploration',
     ARMS=[(c05h, 0.6), (c05s, 0.4)],
-    TIERS={'quick': {'runs': 4000, 'wall_cap': 100, 'minimise_budget': 30},
+    TIERS={'quick': {'runs': 7000, 'wall_cap': 100, 'minimise_budget': 30},
            'thorough': {'runs': 120000, 'wall_cap': 900, 'minimise_budget': 120}},
     RULE='arm c05h: each run = one seeded history (3-40 operations) of select / iter_select (opened, stepped, '
          'interleaved, closed, abandoned) / token.evaluate over shared Selectors, tokens, 1-3 documents (ElementTree, '
@@ -87,7 +87,7 @@ register(
 register(
     ID='C03', LEVEL='fault_enumeration',
     ARMS=[(c03, 1.0)],
-    TIERS={'quick': {'runs': 2000, 'wall_cap': 100, 'minimise_budget': 30, 'run_timeout': 45},
+    TIERS={'quick': {'runs': 3500, 'wall_cap': 100, 'minimise_budget': 30, 'run_timeout': 45},
            'thorough': {'runs': 45000, 'wall_cap': 900, 'minimise_budget': 120, 'run_timeout': 45}},
     RULE='each run = one seeded history (2-30 operations) on 1-3 pooled parser instances: parse of valid / mutated / '
          'random-Unicode / deep sources, parse interrupted by an asynchronous crash at the k-th line event, '
@@ -147,7 +147,7 @@ register(
 register(
     ID='C20', LEVEL='exploration',
     ARMS=[(c20, 1.0)],
-    TIERS={'quick': {'runs': 1200, 'wall_cap': 100, 'minimise_budget': 30},
+    TIERS={'quick': {'runs': 3000, 'wall_cap': 100, 'minimise_budget': 30},
            'thorough': {'runs': 30000, 'wall_cap': 900, 'minimise_budget': 120}},
     RULE='each run = one generated XSD schema (1-8 element declarations over built-in simple types, list, union, '
          'restriction, simple-content extension with typed attribute), a second schema for the same vocabulary, one '
